@@ -943,6 +943,14 @@ pub enum ConnectError {
     },
 }
 
+/// Accessor for the verification harness (property C19).
+#[cfg(iroh_verif)]
+impl Endpoint {
+    pub(crate) fn verif_inner(&self) -> &EndpointInner {
+        &self.inner
+    }
+}
+
 impl Endpoint {
     // The ordering of public methods is reflected directly in the documentation.  This is
     // roughly ordered by what is most commonly needed by users, but grouped in similar
